@@ -148,7 +148,7 @@ class SBool:
         return ctx().branch(self.t)
 
     def __repr__(self):
-        return f"SBool({self.t})"
+        return f"SBool(#{self.t.hash()})"  # terms can be huge: never pretty-print them implicitly
 
     def __hash__(self):
         return hash(self.t)
@@ -212,7 +212,7 @@ class SInt:
         self.t = t
 
     def __repr__(self):
-        return f"SInt({self.t})"
+        return f"SInt(#{self.t.hash()})"
 
     def __hash__(self):
         return hash(self.t)
@@ -558,8 +558,8 @@ class Seg:
 
     def __repr__(self):
         if self.src is None:
-            return f"C{self.data!r}"
-        return f"{self.src.name}[{self.lo}:+{self.n}]"
+            return f"C{self.data[:16]!r}"
+        return f"{self.src.name}[..]"
 
 
 def _simp(t):
@@ -800,7 +800,16 @@ class SBytes:
             for j, ch in enumerate(cst):
                 conj.append(tint(s._byte_term(j)) == ch)
             return z3.And(*conj)
-        raise Unsupported("equality between two symbolic byte strings")
+        # two symbolic ropes: decidable by expansion when one of them is provably short on this path
+        c = ctx()
+        K = 8
+        la, lb = tint(self.length()), tint(o.length())
+        if c._check(z3.Not(z3.Or(la <= K, lb <= K))) == z3.unsat:
+            conj = [la == lb]
+            for j in range(K):
+                conj.append(z3.Implies(z3.And(j < la, j < lb), tint(self._byte_term(j)) == tint(o._byte_term(j))))
+            return z3.And(*conj)
+        raise Unsupported("equality between two long symbolic byte strings")
 
     def _byte_term(self, j):
         # term without range fork; used under a length guard
@@ -917,17 +926,79 @@ class SBytes:
         r == -1 is always possible symbolically (content is not modelled for ropes)"""
         from . import stubs
 
-        stubs.used("bytes.find(sub, start): result is -1 or start <= r <= len(self) - len(sub) (content not modelled)")
-        if end is not None:
-            raise Unsupported("find with end")
+        stubs.used("bytes.find(sub, start[, end]): result is -1 or start <= r <= end - len(sub) (content not modelled; "
+                   "content predicates on ropes are uninterpreted but functional: same bytes, same answer)")
         k = blen(sub)
         n = tint(self.length())
         r = fresh_int("find", register=False)
         c = ctx()
         st = tint(start)
         st = z3.If(st < 0, z3.If(st + n < 0, 0, st + n), st)
-        c.add(z3.Or(r.t == -1, z3.And(r.t >= st, r.t <= n - tint(k))))
+        hi = n if end is None else tint(end)
+        c.add(z3.Or(r.t == -1, z3.And(r.t >= st, r.t <= hi - tint(k))))
+        # link with the content predicate of exactly the searched window: found <=> the window contains the needle
+        if isinstance(sub, (bytes, bytearray)):
+            window = self.slice(start, end)  # same normalisation as the program's own x[start:end]
+            has = window.sym_contains(bytes(sub))
+            c.add(tbool(has) == (r.t != -1) if not isinstance(has, bool) else ((r.t != -1) == has))
         return r
+
+    # -- content predicates (uninterpreted, keyed by the provenance of the bytes) ---------------------------------
+    def _sig(self):
+        parts = []
+        for s in self.segs:
+            if s.src is None:
+                parts.append(("c", s.data))
+            else:
+                parts.append((s.src.name, z3.simplify(tint(s.lo)).sexpr(), z3.simplify(tint(s.n)).sexpr()))
+        return tuple(parts)
+
+    def pred(self, name, *args):
+        """functional uninterpreted predicate on the content: same provenance + same arguments -> same answer.
+        Exact for concrete ropes via `exact` callables registered by the callers."""
+        c = ctx()
+        cache = getattr(c, "_rope_preds", None)
+        if cache is None:
+            cache = c._rope_preds = {}
+        key = (name, args, self._sig())
+        if key not in cache:
+            cache[key] = fresh_bool(f"{name}", register=False)
+        return cache[key]
+
+    def sym_contains(self, needle):
+        if isinstance(needle, (bytes, bytearray)):
+            if self.is_concrete():
+                return bytes(needle) in self.concrete()
+            b = self.pred("contains", bytes(needle))
+            # a needle cannot occur in fewer bytes than its own length
+            ctx().add(z3.Implies(tbool(b), tint(self.length()) >= len(needle)))
+            return b
+        if isinstance(needle, int):
+            return self.pred("contains_byte", needle)
+        raise Unsupported(f"{type(needle).__name__} in symbolic bytes")
+
+    def startswith(self, prefix, *a):
+        if a or not isinstance(prefix, (bytes, bytearray)):
+            raise Unsupported("startswith(range / symbolic)")
+        k = len(prefix)
+        conj = [tint(self.length()) >= k]
+        for j, ch in enumerate(prefix):
+            conj.append(self._byte_term(j) == ch)
+        return mk_bool(z3.And(*conj))
+
+    def rstrip(self, chars=None):
+        """positional model: the result is a prefix of self (content of the stripped part is not modelled)"""
+        k = fresh_int("rstrip.len", register=False)
+        c = ctx()
+        c.add(z3.And(k.t >= 0, k.t <= tint(self.length())))
+        return self.slice(0, k)
+
+    def strip(self, chars=None):
+        a = fresh_int("strip.lo", register=False)
+        b = fresh_int("strip.hi", register=False)
+        c = ctx()
+        c.add(z3.And(a.t >= 0, a.t <= b.t, b.t <= tint(self.length())))
+        return self.slice(a, b)
 
     def removesuffix(self, suffix):
         suffix = bytes(suffix)
@@ -1398,8 +1469,48 @@ def fresh_real(name, register=True):
     return v
 
 
+class SList:
+    """generic abstract list: `count` unknown earlier elements (summary) + elements appended since; enough for
+    append / len / truthiness / [-1] of a just-appended element / clear"""
+
+    _pyvc_sym = True
+
+    def __init__(self, name, count=None):
+        self.name = name
+        if count is None:
+            count = fresh_int(name + ".count", 0, register=False)
+        self.count = count
+        self.new = []
+
+    def append(self, x):
+        self.new.append(x)
+
+    def sym_len(self):
+        return self.count + len(self.new)
+
+    def sym_getitem(self, i):
+        if isinstance(i, int) and i < 0 and -i <= len(self.new):
+            return self.new[i]
+        raise Unsupported(f"SList[{i!r}] on the summarised part")
+
+    def clear(self):
+        self.count = 0
+        self.new = []
+
+    def __bool__(self):
+        n = self.sym_len()
+        return n != 0 if isinstance(n, int) else ctx().branch(tint(n) != 0, f"{self.name}.nonempty")
+
+    def concretize(self, m):
+        from .core import concretize as cz
+
+        return {"earlier": cz(self.count, m), "appended": [cz(e, m) for e in self.new]}
+
+
 def fresh_like(name, v):
     """a fresh unconstrained value of the same shape as v (used by loop havoc)"""
+    if isinstance(v, (list, SList)):
+        return SList(name)
     if isinstance(v, (SBool, bool)):
         return fresh_bool(name, register=False)
     if isinstance(v, (SInt, int)):
